@@ -7,7 +7,7 @@ not fit TLC's 32-bit integers (or whose logged list was truncated by the hook) i
 import glob, json, os, subprocess
 import vlib
 
-KEEP = ("initbegin", "initadd", "initdone")
+KEEP = ("initbegin", "initadd", "initdone", "initclear")
 LIMIT = 1 << 27
 CPPFLAGS = ["-U__GNUC__", "-U__GNUC_MINOR__", "-D__STDC_NO_ATOMICS__", "-D__STDC_NO_COMPLEX__", "-U__SIZEOF_INT128__",
             "-U__PIC__", "-D__extension__=", "-P"]
